@@ -13,8 +13,8 @@ PROPS = {
     "C09": {
         "case_sets": ["lex"],
         "ops": ["SCAN", "NUM"],
-        "lean_targets": ["PqlModel.Props.C09", "PqlModel.Props.C09b", "PqlModel.Props.C09Gaps", "PqlModel.Props.C09Dispatch"],
-        "facts": ["keywords", "isAlphaRanges", "isDigitRanges", "isHexDigitRanges", "tokenKinds", "scanCases", "scanDefault", "identCont", "identKind", "identKeywordClearsValue", "stringQuotes", "stringCases", "stringDefault", "stringEscapes", "stringEscapeDefault", "quotedIdentShape"],
+        "lean_targets": ["PqlModel.Props.C09", "PqlModel.Props.C09b", "PqlModel.Props.C09Gaps", "PqlModel.Props.C09Dispatch", "PqlModel.Props.C09NumberIR"],
+        "facts": ["keywords", "isAlphaRanges", "isDigitRanges", "isHexDigitRanges", "tokenKinds", "scanCases", "scanDefault", "identCont", "identKind", "identKeywordClearsValue", "stringQuotes", "stringCases", "stringDefault", "stringEscapes", "stringEscapeDefault", "quotedIdentShape", "lexNumberIR", "litAccessIR"],
         "rule": "SCAN: every string over the 25-symbol scanner alphabet up to length 3 (quick) / 4 (thorough), "
                 "plus random concatenations of lexeme fragments and raw bytes; non-trivial = distinct source "
                 "with at least two tokens or an error token. RESCAN/NUM: every token text met on the way.",
@@ -23,8 +23,8 @@ PROPS = {
     "C15": {
         "case_sets": ["lex", "parse"],
         "ops": ["SPLIT", "PIECES"],
-        "lean_targets": ["PqlModel.Props.C15", "PqlModel.Props.C15Parse", "PqlModel.Props.C16Semantics", "PqlModel.Props.C09Dispatch"],
-        "facts": ["keywords"],
+        "lean_targets": ["PqlModel.Props.C15", "PqlModel.Props.C15Parse", "PqlModel.Props.C16Semantics", "PqlModel.Props.C09Dispatch", "PqlModel.Props.C15SplitIR"],
+        "facts": ["keywords", "lexSplitIR"],
         "rule": "SPLIT: same sources as C09 (exhaustive short strings over the scanner alphabet, which contains ';', all "
                 "three quote characters, backslash, newline and the comment opener, plus random fragment concatenations); "
                 "non-trivial = distinct source that splits into at least two pieces or contains a semicolon that does not split",
@@ -33,8 +33,8 @@ PROPS = {
         "case_sets": ["parse"],
         "ops": ["PARSE", "PARSEV"],
         "oracle_clauses": [r"c07-.*", r"c08-unaccounted", r"c15-statement-count", r"unreadable-.*"],
-        "lean_targets": ["PqlModel.Props.C07", "PqlModel.Props.C07Full", "PqlModel.Props.C07Layout", "PqlModel.Props.C07Keywords", "PqlModel.Props.C07Defaults"],
-        "facts": ["precedence", "keywords", "joinTypes", "operatorKeywords", "sortTermInit", "sortTermFirst", "sortTermNullsKeyword", "sortTermNulls", "rowCountCheck", "joinInit", "joinKindKeyword", "joinKindSets", "joinUnknownFlavorContinues"],
+        "lean_targets": ["PqlModel.Props.C07", "PqlModel.Props.C07Full", "PqlModel.Props.C07Layout", "PqlModel.Props.C07Keywords", "PqlModel.Props.C07Defaults", "PqlModel.Props.C07OperatorIRTreesA", "PqlModel.Props.C07OperatorIRTreesB", "PqlModel.Props.C07OperatorIR", "PqlModel.Props.C07OperatorIRSort", "PqlModel.Props.C07OperatorIRExtend", "PqlModel.Props.C07OperatorIRProject", "PqlModel.Props.C07OperatorIRLet", "PqlModel.Props.C07OperatorIRTabular"],
+        "facts": ["precedence", "keywords", "joinTypes", "operatorKeywords", "sortTermInit", "sortTermFirst", "sortTermNullsKeyword", "sortTermNulls", "rowCountCheck", "joinInit", "joinKindKeyword", "joinKindSets", "joinUnknownFlavorContinues", "parseIR"],
         "rule": "PARSEV: programs generated from the grammar (every operator, every expression form incl. the `in` rule, "
                 "nested joins, lets, render; random layout, comments, keyword synonyms, redundant and required parentheses); "
                 "PARSE: hand-written corpus, token- and byte-level corruptions, token soups, pathological nesting. "
@@ -44,8 +44,8 @@ PROPS = {
         "case_sets": ["parse"],
         "ops": ["PARSE", "PARSEV"],
         "oracle_clauses": [r"c08-.*", r"unreadable-.*"],
-        "lean_targets": ["PqlModel.Props.C08", "PqlModel.Props.C08Full", "PqlModel.Props.C08Reject", "PqlModel.Props.C08RejectCx"],
-        "facts": [],
+        "lean_targets": ["PqlModel.Props.C08", "PqlModel.Props.C08Full", "PqlModel.Props.C08Reject", "PqlModel.Props.C08RejectCx", "PqlModel.Props.C07OperatorIRTreesA", "PqlModel.Props.C07OperatorIRTreesB", "PqlModel.Props.C07OperatorIR", "PqlModel.Props.C07OperatorIRSort", "PqlModel.Props.C07OperatorIRExtend", "PqlModel.Props.C07OperatorIRProject", "PqlModel.Props.C07OperatorIRLet", "PqlModel.Props.C07OperatorIRTabular"],
+        "facts": ["parseIR"],
         "rule": "same sources as C07; the oracle re-prints the implementation's tree and compares it with the reference "
                 "tokenizer's tokens of the source; non-trivial = distinct corrupted or generated source, accepted or rejected",
     },
@@ -53,8 +53,8 @@ PROPS = {
         "case_sets": ["parse"],
         "ops": ["PARSE", "PARSEV", "LINECOL"],
         "oracle_clauses": [r"c10-.*", r"unreadable-.*"],
-        "lean_targets": ["PqlModel.Props.C10", "PqlModel.Props.C08Full", "PqlModel.Props.C10Linecol", "PqlModel.Props.C10Failed", "PqlModel.Props.C10Extent", "PqlModel.Props.C10Compile"],
-        "facts": ["structFields", "spanUnion"],
+        "lean_targets": ["PqlModel.Props.C10", "PqlModel.Props.C08Full", "PqlModel.Props.C10Linecol", "PqlModel.Props.C10Failed", "PqlModel.Props.C10Extent", "PqlModel.Props.C10Compile", "PqlModel.Props.C10SpanIR", "PqlModel.Props.C10SpanIRNodes", "PqlModel.Props.C10LinecolIR", "PqlModel.Props.C07OperatorIRTreesA", "PqlModel.Props.C07OperatorIRTreesB", "PqlModel.Props.C07OperatorIR", "PqlModel.Props.C07OperatorIRSort", "PqlModel.Props.C07OperatorIRExtend", "PqlModel.Props.C07OperatorIRProject", "PqlModel.Props.C07OperatorIRLet", "PqlModel.Props.C07OperatorIRTabular"],
+        "facts": ["structFields", "spanUnion", "astIR", "astSpanReturns", "linecolIR", "parseIR"],
         "rule": "same sources as C07 in multi-line / tab / comment / non-ASCII layouts; every span field and every Span() "
                 "result of every node (reflection) is compared with the model and checked against the token positions; "
                 "failed parses: every reported span must be invalid-marked or inside the source",
@@ -63,8 +63,8 @@ PROPS = {
         "case_sets": ["walk"],
         "ops": ["WALK"],
         "oracle_clauses": [r"c11-.*", r"unreadable-.*"],
-        "lean_targets": ["PqlModel.Props.C11", "PqlModel.Props.C11b", "PqlModel.Props.C11Compile"],
-        "facts": ["structFields", "walkCases", "walkLoops", "walkDefaultPanics"],
+        "lean_targets": ["PqlModel.Props.C11", "PqlModel.Props.C11b", "PqlModel.Props.C11Compile", "PqlModel.Props.C11WalkIRPushes", "PqlModel.Props.C11WalkIR"],
+        "facts": ["structFields", "walkCases", "walkLoops", "walkDefaultPanics", "astIR", "astWalkCases", "astWalkLoops"],
         "rule": "WALK: grammar-generated programs (every node type in every child position) walked with a visitor that "
                 "always returns true and with pseudo-random pruning masks; non-trivial = distinct (source, mask) that parses",
     },
@@ -72,8 +72,8 @@ PROPS = {
         "case_sets": ["parse", "compile", "walk", "lex", "weirdparams"],
         "ops": ["PARSE", "PARSEV", "SCAN", "SPLIT", "WALK", "COMPILE", "COMPILESEQ"],
         "oracle_clauses": [r"c12-.*"],
-        "lean_targets": ["PqlModel.Props.C12", "PqlModel.Props.C12Fuel", "PqlModel.Props.C13Exact"],
-        "facts": [],
+        "lean_targets": ["PqlModel.Props.C12", "PqlModel.Props.C12Fuel", "PqlModel.Props.C13Exact", "PqlModel.Props.C10SpanIR", "PqlModel.Props.C11WalkIR"],
+        "facts": ["astIR"],
         "rule": "every case of the lexer, parser and walk sets runs under recover and a watchdog (5 s in the parallel pool, then 10 s alone before HANG is reported), including pathological "
                 "nesting of brackets, calls, indexes, signs, joins and error cascades up to a few KiB; non-trivial = distinct input",
         "assumptions": ["wall-clock time and stack exhaustion belong to the Go runtime: measured by the watchdog, not proved"],
@@ -82,8 +82,8 @@ PROPS = {
         "case_sets": ["compile"],
         "ops": ["COMPILE"],
         "oracle_clauses": [r"c01-.*", r"c05-lex", r"c05-parse", r"c05-brackets", r"c12-.*", r"unreadable-.*"],
-        "lean_targets": ["PqlModel.Props.C01", "PqlModel.Props.C01LexRender", "PqlModel.Props.C01Sem", "PqlModel.Props.C01Syntactic", "PqlModel.Props.C06Operand", "PqlModel.Props.C05ParseStatement", "PqlModel.Props.C01Templates", "PqlModel.Props.C02EndToEnd", "PqlModel.Props.C05Parsed", "PqlModel.Props.C02EndToEndSource", "PqlModel.Props.C05NoPlaceholder"],
-        "facts": ["binaryOps", "builtinIdentifiers", "knownFunctions", "writerArityGuard", "writeTemplates", "maybeParenBare", "precedence"],
+        "lean_targets": ["PqlModel.Props.C01", "PqlModel.Props.C01LexRender", "PqlModel.Props.C01Sem", "PqlModel.Props.C01Syntactic", "PqlModel.Props.C06Operand", "PqlModel.Props.C05ParseStatement", "PqlModel.Props.C01Templates", "PqlModel.Props.C02EndToEnd", "PqlModel.Props.C05Parsed", "PqlModel.Props.C02EndToEndSource", "PqlModel.Props.C05NoPlaceholder", "PqlModel.Props.C01WriteExprIR", "PqlModel.Props.C01WriteExprIRCases", "PqlModel.Props.C01WriteExprIRAll"],
+        "facts": ["binaryOps", "builtinIdentifiers", "knownFunctions", "writerArityGuard", "writeTemplates", "maybeParenBare", "precedence", "exprIR", "exprFns"],
         "rule": "COMPILE: hand-written corpus of expression shapes (parentheses, signs, index, in, every built-in as operand of "
                 "every operator class) + grammar-generated programs with expressions in every position; the oracle re-reads "
                 "the emitted SQL with the independent SQL reader and compares WHERE expressions with the intended translation; "
@@ -93,8 +93,8 @@ PROPS = {
         "case_sets": ["content"],
         "ops": ["COMPILE", "COMPILE2", "QUOTE"],
         "oracle_clauses": [r"c04-.*", r"c05-lex", r"unreadable-.*"],
-        "lean_targets": ["PqlModel.Props.C04", "PqlModel.Props.C05LexStatement", "PqlModel.Props.C04Shape", "PqlModel.Props.C04ShapeQuery", "PqlModel.Props.C04ShapeCx", "PqlModel.Props.C04Numbers"],
-        "facts": [],
+        "lean_targets": ["PqlModel.Props.C04", "PqlModel.Props.C05LexStatement", "PqlModel.Props.C04Shape", "PqlModel.Props.C04ShapeQuery", "PqlModel.Props.C04ShapeCx", "PqlModel.Props.C04Numbers", "PqlModel.Props.C09NumberIR"],
+        "facts": ["litAccessIR", "lexNumberIR"],
         "rule": "QUOTE: both quoting functions on every string over a 13-symbol adversarial alphabet up to length 3 (quick) / 4 "
                 "(thorough) and random longer ones; COMPILE2: generated programs compiled twice with the contents of all string "
                 "literals, quoted names and numbers replaced by adversarial contents — token shapes must coincide; "
@@ -114,8 +114,8 @@ PROPS = {
         "case_sets": ["compile"],
         "ops": ["COMPILE", "COMPILESEQ"],
         "oracle_clauses": [r"c06-.*", r"unreadable-.*"],
-        "lean_targets": ["PqlModel.Props.C06", "PqlModel.Props.C06Subst", "PqlModel.Props.C14Order", "PqlModel.Props.C06Operand", "PqlModel.Props.C02EndToEndSource", "PqlModel.Props.C06Params", "PqlModel.Props.C06ParamsAtomic", "PqlModel.Props.C06ParamsExamples", "PqlModel.Props.C06Placeholders", "PqlModel.Props.C02ProgramNames"],
-        "facts": ["builtinIdentifiers"],
+        "lean_targets": ["PqlModel.Props.C06", "PqlModel.Props.C06Subst", "PqlModel.Props.C14Order", "PqlModel.Props.C06Operand", "PqlModel.Props.C02EndToEndSource", "PqlModel.Props.C06Params", "PqlModel.Props.C06ParamsAtomic", "PqlModel.Props.C06ParamsExamples", "PqlModel.Props.C06Placeholders", "PqlModel.Props.C02ProgramNames", "PqlModel.Props.C06CompileIR"],
+        "facts": ["builtinIdentifiers", "exprIR", "exprFns", "writeIR"],
         "rule": "COMPILE with parameter maps (names colliding with columns, constants, let names) and let chains (shadowing, "
                 "redefinition, lets after the query, uses under signs, before [, in in-lists, join conditions, row counts); the "
                 "output is read and compared with the reference reading of the program with all lets substituted; "
@@ -125,8 +125,8 @@ PROPS = {
         "case_sets": ["compile"],
         "ops": ["COMPILE", "COMPILESEQ"],
         "oracle_clauses": [r"c13-.*", r"unreadable-.*"],
-        "lean_targets": ["PqlModel.Props.C13", "PqlModel.Props.C13Exact", "PqlModel.Props.C13Arity"],
-        "facts": ["writerArityGuard", "knownFunctions", "joinTypes"],
+        "lean_targets": ["PqlModel.Props.C13", "PqlModel.Props.C13Exact", "PqlModel.Props.C13Arity", "PqlModel.Props.C01WriteExprIRAll", "PqlModel.Props.C06CompileIR", "PqlModel.Props.C07OperatorIRTreesA", "PqlModel.Props.C07OperatorIRTreesB", "PqlModel.Props.C07OperatorIR", "PqlModel.Props.C07OperatorIRSort", "PqlModel.Props.C07OperatorIRExtend", "PqlModel.Props.C07OperatorIRProject", "PqlModel.Props.C07OperatorIRLet", "PqlModel.Props.C07OperatorIRTabular"],
+        "facts": ["writerArityGuard", "knownFunctions", "joinTypes", "exprIR", "parseIR"],
         "rule": "COMPILE on generated programs, the same with a token corrupted, and a corpus of every documented misuse; the oracle "
                 "evaluates the Misuse predicate on the parsed program and requires error iff (parse error or misuse); "
                 "non-trivial = distinct (source, parameters)",
